@@ -7,7 +7,7 @@ CHECKS = {  # seeded change -> checks expected to fail
     "C15-diamond-dedup": ["C15"], "C12-eof-fuel": ["C12"], "C11-multiline-trim": ["C11"],
     "C05-def-before-local": ["C05"], "C19-goident-reescape": ["C19"], "C13-xor-fold": ["C13"],
     "C10-f32-double-rounding": ["C10"], "C16-transitive-envs": ["C16"], "C02-dyn-struct-name": ["C02"],
-    "C17-dyn-effect-call-dropped": ["C01"],  # since 08eb8c1 the leftover dyn wrapper is `_ = e` (valid Go): C02 no longer sees it, C01 does (go stage, stdout-differs)
+    "C17-dyn-effect-call-dropped": ["C17", "C01"],  # since 08eb8c1 the leftover dyn wrapper is `_ = e` (valid Go): C02 no longer sees it, C01 does (go stage, stdout-differs)
     "C01-struct-pattern-order": ["C01"],
 }
 def sh(cmd, **kw):
